@@ -335,24 +335,30 @@ func (s *c19State) reads() string {
 	if p := s.r.CheckGets(c19Keys); p != "" {
 		return "embedded-" + firstLine(p) + "\nembedded read after service writes: " + p
 	}
-	// scans: all combinations of option presence
-	for mask := 0; mask < 32; mask++ {
+	// scans: all combinations of option presence, then prefix/suffix pairs that overlap on a key, equal a whole key,
+	// or are longer than every key
+	extra := [][2]string{{"k2x", "2x"}, {"k2", "2x"}, {"k2x", "k2x"}, {"j", "j9x"}, {"k1", "1"}, {"k3", "3"}, {"k2xx", ""}, {"", "xk2x"}, {"k", "k"}}
+	for mask := 0; mask < 32+len(extra); mask++ {
 		var prefix, suffix, start, end string
 		limit := 0
-		if mask&1 != 0 {
-			prefix = "k"
-		}
-		if mask&2 != 0 {
-			suffix = "x"
-		}
-		if mask&4 != 0 {
-			start = "k1"
-		}
-		if mask&8 != 0 {
-			end = "k3"
-		}
-		if mask&16 != 0 {
-			limit = 1
+		if mask >= 32 {
+			prefix, suffix = extra[mask-32][0], extra[mask-32][1]
+		} else {
+			if mask&1 != 0 {
+				prefix = "k"
+			}
+			if mask&2 != 0 {
+				suffix = "x"
+			}
+			if mask&4 != 0 {
+				start = "k1"
+			}
+			if mask&8 != 0 {
+				end = "k3"
+			}
+			if mask&16 != 0 {
+				limit = 1
+			}
 		}
 		desc := fmt.Sprintf("prefix=%q suffix=%q start=%q end=%q limit=%d", prefix, suffix, start, end, limit)
 		if s.handle == "" {
@@ -508,7 +514,7 @@ func init() {
 	fw.Register(&fw.Check{
 		ID:    "C19",
 		Level: "model_checking",
-		Rule: "explicit-state search over request sequences (depth 4, thorough 5) against the real KevoServiceServer handlers (in-memory stream objects) on a real engine: alphabet of 20 (23) requests {Put (incl. empty value, 4096-byte key, 10 MiB value), Delete, BatchWrite (3 ops incl. empty value; repeated key; 1000 ops), Begin rw/ro, TxPut, TxDelete, Commit, Rollback (also on finished/unknown handles), and requests that must be rejected: empty key, 4097-byte key, 10 MiB+1 value, 1001-operation batch, batch with a bad key in its second operation, TxGet/TxPut with bad keys, TxPut on an unknown handle}; after every sequence the whole read suite runs: Get/TxGet of 7 keys, all 32 combinations of {prefix, suffix, start, end, limit} for Scan or TxScan, limit 2, GetNodeInfo, use of finished handles, and the embedded reads on the same engine. Oracle: map model with the documented rule that prefix/suffix make start/end ignored; a rejected request changes nothing (state, open transaction). States de-duplicated by engine state + open handle + transaction view. Non-trivial = sequences with >=2 requests",
+		Rule: "explicit-state search over request sequences (depth 4, thorough 5) against the real KevoServiceServer handlers (in-memory stream objects) on a real engine: alphabet of 20 (23) requests {Put (incl. empty value, 4096-byte key, 10 MiB value), Delete, BatchWrite (3 ops incl. empty value; repeated key; 1000 ops), Begin rw/ro, TxPut, TxDelete, Commit, Rollback (also on finished/unknown handles), and requests that must be rejected: empty key, 4097-byte key, 10 MiB+1 value, 1001-operation batch, batch with a bad key in its second operation, TxGet/TxPut with bad keys, TxPut on an unknown handle}; after every sequence the whole read suite runs: Get/TxGet of 7 keys, all 32 combinations of {prefix, suffix, start, end, limit} for Scan or TxScan, 9 prefix/suffix pairs that overlap on a key / equal a whole key / exceed every key, limit 2, GetNodeInfo, use of finished handles, and the embedded reads on the same engine. Oracle: map model with the documented rule that prefix/suffix make start/end ignored; a rejected request changes nothing (state, open transaction). States de-duplicated by engine state + open handle + transaction view. Non-trivial = sequences with >=2 requests",
 		Assumptions: []string{"handlers are called directly with in-memory stream objects (protobuf marshalling is not exercised; empty bytes fields are passed as nil, which is what unmarshalling yields)", "Compact and GetStats are administrative and outside the statement's list", "a client does not open a second transaction (Scan, BatchWrite) while holding a handle"},
 		Units: func(tier string) []string {
 			var us []string
